@@ -70,22 +70,23 @@ Proof. exact closed_refuted_lemma. Qed.
 Print Assumptions c02_closed_refuted.
 
 (* PARTIAL (what does hold, proved): inside the envelope — no install_if, no
-   dependency on a self-provided name, one provider per name, versions only on
-   package names (Spec.ResolveSpec.envelope_b; it is also the harness's
-   in-envelope stream, where ANY validator failure is a VIOLATION) — names are
-   unique, so the very candidate that filterPackages/bestPackage chose for each
-   request is a member of the result; together with c02_nodup and
-   c02_members_from_universe.  NOT proved (only checked on the implementation's
-   results by the validator, on every in-envelope case): that each chosen
-   candidate satisfies its constraint in the sense of the Spec (needs the
-   soundness of the name map and of constrain) and the closure of the
-   dependencies of every member (an invariant of get_deps relating `selected`,
-   `dq` and the returned list).  See notes/C02.md. *)
+   dependency on a self-provided name, one provider per name, version operators
+   only on package names (Spec.ResolveSpec.envelope_b; it is also the harness's
+   in-envelope stream, where ANY validator failure is a VIOLATION) — three of
+   the four clauses of Closed hold: no duplicate names, members from the
+   universe, and EVERY REQUEST IS SATISFIED in the sense of the Spec (names are
+   unique, so the very candidate chosen for a request is a member; the name map
+   is sound; constrain has disqualified it unless its own version passes).
+   NOT proved: the fourth clause, the closure of the dependencies of every
+   member (needs an invariant of get_deps relating `selected`, `dq`, `parents`
+   and the returned list); it is checked on the implementation's result by the
+   verified validator on every in-envelope case.  See notes/C02.md. *)
 Theorem c02_closed_partial : forall U W dq0 scheds S,
   envelope_b U W = true -> resolve U W dq0 scheds = Ok S ->
   NoDup (List.map p_name (pkgs_of U S)) /\ incl (pkgs_of U S) U /\
+  (forall w, In w W -> satisfies_dep (pkgs_of U S) w) /\
   (forall w, In w W -> exists dq i, incl dq0 dq /\ In i (candidates (new_resolver U) dq (cook_str w)) /\ In i S).
-Proof. exact closed_partial_lemma. Qed.
+Proof. exact closed_partial_lemma2. Qed.
 Print Assumptions c02_closed_partial.
 Example c02_closed_partial_example :
   envelope_b [wp "a" "1.0" ["b>0.5"; "v"] [] []; wp "b" "1.0" [] ["v=2"] []] ["a"; "v"] = true /\
